@@ -54,6 +54,11 @@ Theorem C01_jpeg_dims_terminates :
 Proof. exact jpeg_dims_terminates. Qed.
 Print Assumptions C01_jpeg_dims_terminates.
 
+Theorem C01_ooxml_jpeg_dims_terminates :
+  forall (d : list Z) (i : Z), bytes_ok d = true -> (0 <= i)%Z -> ooxml_jpeg_dims (fuel_for d i) d i <> None.
+Proof. exact ooxml_jpeg_dims_terminates. Qed.
+Print Assumptions C01_ooxml_jpeg_dims_terminates.
+
 Example C01_loops_nonvacuous :
   bytes_ok [15; 0; 232; 3; 8; 0; 0; 0; 0; 0; 160; 15; 0; 0; 0; 0]%Z = true
   /\ iter_records (fuel_for [15; 0; 232; 3; 8; 0; 0; 0; 0; 0; 160; 15; 0; 0; 0; 0]%Z 0) [15; 0; 232; 3; 8; 0; 0; 0; 0; 0; 160; 15; 0; 0; 0; 0]%Z 0
